@@ -642,3 +642,202 @@ pub fn twin(rng: &mut Rng, q: &str) -> String {
         }
     }
 }
+
+// ---------------------------------------------------------------------------------------------
+// textual query shrinking (for minimised reports): candidates are shorter strings obtained by
+// dropping a segment, keeping one selector of a union, keeping one operand of && / ||, or
+// removing a pair of parentheses. Candidates need not be valid; the caller keeps one only if
+// the same violation persists.
+
+fn scan(q: &[char]) -> Vec<(usize, usize, char)> {
+    // (open, close, kind) of every balanced [..] and (..) outside string literals
+    let mut out = vec![];
+    let mut stack: Vec<(usize, char)> = vec![];
+    let mut in_s: Option<char> = None;
+    let mut i = 0;
+    while i < q.len() {
+        let c = q[i];
+        match in_s {
+            Some(qc) => {
+                if c == '\\' {
+                    i += 1;
+                } else if c == qc {
+                    in_s = None;
+                }
+            }
+            None => match c {
+                '\'' | '"' => in_s = Some(c),
+                '[' | '(' => stack.push((i, c)),
+                ']' | ')' => {
+                    if let Some((o, k)) = stack.pop() {
+                        out.push((o, i, k));
+                    }
+                }
+                _ => {}
+            },
+        }
+        i += 1;
+    }
+    out
+}
+
+/// positions of `sep` at bracket depth 0 inside q[from..to], outside strings
+fn split_top(q: &[char], from: usize, to: usize, sep: &str) -> Vec<usize> {
+    let sepc: Vec<char> = sep.chars().collect();
+    let mut out = vec![];
+    let mut depth = 0i32;
+    let mut in_s: Option<char> = None;
+    let mut i = from;
+    while i < to {
+        let c = q[i];
+        match in_s {
+            Some(qc) => {
+                if c == '\\' {
+                    i += 1;
+                } else if c == qc {
+                    in_s = None;
+                }
+            }
+            None => match c {
+                '\'' | '"' => in_s = Some(c),
+                '[' | '(' => depth += 1,
+                ']' | ')' => depth -= 1,
+                _ => {
+                    if depth == 0 && i + sepc.len() <= to && q[i..i + sepc.len()] == sepc[..] {
+                        out.push(i);
+                        i += sepc.len() - 1;
+                    }
+                }
+            },
+        }
+        i += 1;
+    }
+    out
+}
+
+pub fn shrink_query(query: &str) -> Vec<String> {
+    let q: Vec<char> = query.chars().collect();
+    let mut out: Vec<String> = vec![];
+    let groups = scan(&q);
+    let s = |v: Vec<char>| -> String { v.into_iter().collect() };
+    // 1. drop a whole bracketed group that is a segment (preceded by $, ], a name char, or '.')
+    for (o, c, k) in &groups {
+        if *k == '[' {
+            let mut v = q.clone();
+            let mut start = *o;
+            if start >= 2 && q[start - 1] == '.' && q[start - 2] == '.' {
+                start -= 2;
+            }
+            v.drain(start..=*c);
+            out.push(s(v));
+        }
+    }
+    // 2. drop a dotted name / wildcard segment
+    let mut i = 1;
+    while i < q.len() {
+        if q[i] == '.' {
+            let mut j = i + 1;
+            if j < q.len() && q[j] == '.' {
+                j += 1;
+            }
+            let st = j;
+            while j < q.len() && (q[j].is_alphanumeric() || q[j] == '_' || q[j] == '*' || (q[j] as u32) >= 0x80) {
+                j += 1;
+            }
+            if j > st {
+                let mut v = q.clone();
+                v.drain(i..j);
+                out.push(s(v));
+            }
+            i = j.max(i + 1);
+        } else {
+            i += 1;
+        }
+    }
+    // 3. unions: keep one selector; filters and parentheses: keep one operand
+    for (o, c, k) in &groups {
+        let inner_from = *o + 1;
+        let inner_to = *c;
+        if *k == '[' {
+            let commas = split_top(&q, inner_from, inner_to, ",");
+            if !commas.is_empty() {
+                let mut bounds = vec![inner_from];
+                for p in &commas {
+                    bounds.push(*p);
+                }
+                bounds.push(inner_to);
+                for w in 0..bounds.len() - 1 {
+                    let a = if w == 0 { bounds[w] } else { bounds[w] + 1 };
+                    let b = bounds[w + 1];
+                    let mut v: Vec<char> = q[..inner_from].to_vec();
+                    v.extend_from_slice(&q[a..b]);
+                    v.extend_from_slice(&q[inner_to..]);
+                    out.push(s(v));
+                }
+            }
+        }
+        // logical operands
+        let expr_from = if *k == '[' {
+            // only filters
+            let mut f = inner_from;
+            while f < inner_to && q[f] == ' ' {
+                f += 1;
+            }
+            if f < inner_to && q[f] == '?' {
+                f + 1
+            } else {
+                continue;
+            }
+        } else {
+            inner_from
+        };
+        for sep in ["||", "&&"] {
+            let ps = split_top(&q, expr_from, inner_to, sep);
+            if ps.is_empty() {
+                continue;
+            }
+            let mut bounds = vec![expr_from];
+            for p in &ps {
+                bounds.push(*p);
+            }
+            bounds.push(inner_to);
+            for w in 0..bounds.len() - 1 {
+                let a = if w == 0 { bounds[w] } else { bounds[w] + 2 };
+                let b = bounds[w + 1];
+                let mut v: Vec<char> = q[..expr_from].to_vec();
+                v.extend_from_slice(&q[a..b]);
+                v.extend_from_slice(&q[inner_to..]);
+                out.push(s(v));
+            }
+            break;
+        }
+        if *k == '(' {
+            // remove the parentheses (and a '!' in front of them)
+            let mut v: Vec<char> = q[..*o].to_vec();
+            if v.last() == Some(&'!') {
+                v.pop();
+            }
+            v.extend_from_slice(&q[inner_from..inner_to]);
+            v.extend_from_slice(&q[*c + 1..]);
+            out.push(s(v));
+        }
+    }
+    out.retain(|c| c.len() < query.len() && c.starts_with('$'));
+    out.sort_by_key(|c| c.len());
+    out.dedup();
+    out
+}
+
+#[cfg(test)]
+mod shrink_tests {
+    #[test]
+    fn shrinks() {
+        let c = super::shrink_query("$.a[?@.b==1&&(@.c||$.d)]['x','y']..z");
+        assert!(c.contains(&"$[?@.b==1&&(@.c||$.d)]['x','y']..z".to_string()), "{:?}", c);
+        assert!(c.contains(&"$.a[?@.b==1]['x','y']..z".to_string()), "{:?}", c);
+        assert!(c.contains(&"$.a[?@.b==1&&(@.c||$.d)]['x']..z".to_string()), "{:?}", c);
+        assert!(c.contains(&"$.a[?@.b==1&&@.c||$.d]['x','y']..z".to_string()), "{:?}", c);
+        assert!(c.contains(&"$.a[?@.b==1&&(@.c)]['x','y']..z".to_string()), "{:?}", c);
+        assert!(c.contains(&"$.a[?@.b==1&&(@.c||$.d)]['x','y']".to_string()), "{:?}", c);
+    }
+}
